@@ -55,6 +55,7 @@ impl<'ast> Visit<'ast> for FnDump {
                     _ => ("expr".to_string(), J::Null),
                 };
                 J::O(vec![
+                    ("attrs", J::A(a.attrs.iter().map(|x| jn(&x.meta)).collect())),
                     ("pats", J::A(pats)),
                     ("guard", a.guard.as_ref().map(|(_, g)| jn(g)).unwrap_or(J::Null)),
                     ("body", jn(&a.body)),
